@@ -16,11 +16,16 @@ def norm(v):
     return json.loads(json.dumps(v, cls=SyncedCollectionJSONEncoder))
 
 
-def apply_op(rnd, doc, model):
-    """apply one random mapping operation to the real document `doc` and the dict `model`; returns a description"""
+def apply_op(rnd, doc, model, mem=None):
+    """apply one random mapping operation to the real document `doc` and the dict `model`; returns a description.
+    `mem`: what the long-lived handle of this document may still hold in memory (it re-loads through the dependency's in-place merge)"""
     op = rnd.choice(["set", "set", "attr", "del", "update", "setdefault", "pop", "clear", "reset", "nested", "append"])
     k, v = rnd.choice(KEYS), copy.deepcopy(rnd.choice(VALS))
-    if op in ("set", "attr") and dep_trigger(model, {k: norm(v)}):
+    _dt = dep_trigger
+
+    def dep_trigger_(cur, new):
+        return _dt(cur, new) or (mem is not None and _dt(mem, new))
+    if op in ("set", "attr") and dep_trigger_(model, {k: norm(v)}):
         return None             # another live handle would re-load this change through the dependency's in-place merge (F23 / F24)
     if op == "set":
         doc[k] = v
@@ -36,11 +41,13 @@ def apply_op(rnd, doc, model):
             return None
     elif op == "update":
         u = {kk: copy.deepcopy(rnd.choice(VALS)) for kk in rnd.sample(KEYS, 2)}
-        if dep_trigger(model, norm(u)):
+        if dep_trigger_(model, norm(u)):
             return None         # scope excludes dependency findings F23 / F24 (update() goes through the same in-place merge)
         doc.update(u)
         model.update(norm(u))
     elif op == "setdefault":
+        if k not in model and dep_trigger_(model, {k: norm(v)}):
+            return None
         r = doc.setdefault(k, v)
         model.setdefault(k, norm(v))
     elif op == "pop":
@@ -53,7 +60,7 @@ def apply_op(rnd, doc, model):
         model.clear()
     elif op == "reset":
         new = {kk: copy.deepcopy(rnd.choice(VALS)) for kk in rnd.sample(KEYS, rnd.randint(0, 2))}
-        if dep_trigger(model, norm(new)):
+        if dep_trigger_(model, norm(new)):
             return None         # scope excludes dependency findings F23 / F24
         doc.reset(new)
         model.clear()
@@ -91,8 +98,11 @@ def scenario(seed, buffered_mode):
         files[id(p)] = p.fn(p.FN_DOCUMENT)
         trace = []
 
+        mems = {id(t[1]): {} for t in targets}      # what the long-lived handle (obj.document) may still hold in memory
+
         def handle(kind, obj):
             how = rnd.choice(["same", "fresh"])
+            handle.last_same = how == "same"
             if kind == "project":
                 return (obj if how == "same" else signac.Project(obj.path)).document
             return (obj if how == "same" else signac.Project(p.path).open_job(id=obj.id)).document
@@ -102,9 +112,12 @@ def scenario(seed, buffered_mode):
                 kind, obj = rnd.choice(targets)
                 m = models[id(obj)]
                 h = (obj.document if inside_buffer else handle(kind, obj))   # inside a buffered block: the writing handle
-                d = apply_op(rnd, h, m)
+                same = True if inside_buffer else handle.last_same
+                d = apply_op(rnd, h, m, mems[id(obj)])
                 if d is None:
                     continue
+                if same:
+                    mems[id(obj)] = copy.deepcopy(m)
                 trace.append(("buffered " if inside_buffer else "") + f"{kind}:{d}")
                 if d.startswith("FAIL:"):
                     return d[5:]
@@ -113,6 +126,8 @@ def scenario(seed, buffered_mode):
                     return f"value read back {got} != dict model {m} after {trace[-3:]}"
                 if not inside_buffer:
                     other = norm(handle(kind, obj)())
+                    if handle.last_same and other == m:
+                        mems[id(obj)] = copy.deepcopy(m)
                     if other != m:
                         return f"another handle sees {other}, dict model {m} after {trace[-3:]}"
                     disk = on_disk(files[id(obj)])
